@@ -240,7 +240,7 @@ CHECKS = {
    technique="Coq proof (induction over invocation histories) + exhaustive differential check of the model against the real generator",
    text="Theorems C19_last_wins(_spec), C19_stale_gone, C19_wanted_rewritten, C19_foreign_untouched, C19_idempotent are proved in Coq for "
         "every starting directory and every history of any length over a model of goag.go Generate's write/remove sequence. The model is tied "
-        "to /repo on every run by running the real generator over all 584 histories of length<=3 (the property's stated universe, from an empty "
+        "to /repo on every run by running the real generator over all 1884 histories of length<=3 over 12 invocations (containing the 584 of the property's stated universe, from an empty "
         "and from a user-populated directory) plus seeded longer histories, comparing every file's presence and sha256 with the model and with the "
         "declarative single-run specification; the directory also holds user files (a test file, a hand-written file, a file of the same "
         "package importing third-party packages under standard-library names, a file generated by another tool) and owned files that look up "
